@@ -796,4 +796,42 @@ theorem dropRow_milu_sum (hn : 1 ≤ n) (hnm : n < m) (hr : rows.size = m) (hs :
     · rw [hk, get!_set_eq _ _ _ hjs]
 
 end block
+
+/-! ### a concrete supernode: rows dropped in both loops, and the defect of the second loop -/
+
+/-- one column, six rows: the diagonal 4, then 1/4, 3, 1, 5, 2; subscripts 10..15 -/
+def exRows : Array (Array Rat) := #[#[4], #[1/4], #[3], #[1], #[5], #[2]]
+def exSubs : Array Int := #[10, 11, 12, 13, 14, 15]
+def exRule : Rule := { nodrop := false, basic := true, secondary := true, interp := false }
+/-- max-norm, `drop_tol = 1/2`, `quota = 3`, `alpha = 1/2`, `fill_tol = 1/100` -/
+def exBlock (milu : Milu) := dropBlock (opsRat fun _ => 0) exRule milu .inf (1/2 : Rat) 3 (1/2 : Rat) (1/100 : Rat) 6 1 exRows exSubs
+
+/-- the hypotheses of the `dropRow_*` theorems hold for it, and rows are dropped in BOTH loops: the first loop drops
+original row 1 (norm 1/4 < 1/2), `qselect` then returns `tol = 2` (rank 2 of the norms 2, 3, 1, 5) and the second loop
+drops two more rows; 3 rows are returned as dropped, positions 0..2 are kept; the accumulator row is 1/4 + 2 + 5 and
+the diagonal becomes `4 * (1 + min(29/4, 2(1 - 1/2))) = 8` under SMILU_1. -/
+example : (exBlock .smilu1).1.r = 3 ∧ (exBlock .smilu1).1.m1 = 2 ∧ (exBlock .smilu1).2.1.tol = some 2 ∧
+    (exBlock .smilu1).2.1.usedSelect = true ∧
+    (exBlock .smilu1).1.trace = [(4, 1), (5, 2), (1, 1/4)] ∧
+    (exBlock .smilu1).1.rows[5]! = #[29/4] ∧ (exBlock .smilu1).2.2.1[0]! = #[8] ∧
+    ((exBlock .smilu1).1.subs.extract 0 3) = #[10, 13, 12] := by
+  decide +kernel
+
+example := dropRow_count (opsRat fun _ => 0) exRule .smilu1 .inf (1/2 : Rat) 3 (1/2 : Rat) (1/100 : Rat) 6 1 exRows exSubs
+  (by decide) (by decide) rfl rfl
+example := dropRow_milu_sum (opsRat fun _ => 0) exRule .smilu1 .inf (1/2 : Rat) 3 (1/2 : Rat) (1/100 : Rat) 6 1 exRows exSubs
+  (by decide) (by decide) rfl rfl (by decide +kernel)
+
+/-- **C15 (a defect of `ilu_?drop_row`, reproduced on the C code by findings/D15_drop_row_neighbour_norm.c).**
+The second loop stores, for the row it moves from position `m1` to position `i`, the norm `temp[m1-1]` (the index is
+taken AFTER `m1--`, ilu_ddrop_row.c:257-259) instead of `temp[m1]`.  On the block above the secondary threshold is 2;
+the routine drops original row 4, whose norm is 5 > 2, because the norm it consulted was 1 (the norm of original row 3),
+and it keeps original row 3 (norm 1 ≤ 2) at position 1.  So "every row dropped by the second loop has norm <= tol"
+is FALSE of the code; what is true is `dropRow_threshold` (the norm CONSULTED is <= tol). -/
+theorem dropRow_secondary_uses_neighbour_norm :
+    (exBlock .silu).2.1.tol = some 2 ∧
+    ((4, 1) ∈ (exBlock .silu).1.trace) ∧ (opsRat fun _ => 0).rowNorm .inf exRows[4]! = 5 ∧
+    (exBlock .silu).1.orig[1]! = 3 ∧ 1 ≤ (exBlock .silu).1.m1 ∧ (opsRat fun _ => 0).rowNorm .inf exRows[3]! = 1 := by
+  decide +kernel
+
 end Slu.IluDrop
